@@ -59,7 +59,7 @@ def WORKERS(tier):
 
 # ---- records -------------------------------------------------------------------------------------------------
 
-STRS = ["abc", "", "ABC", "b", "xabcx", "Zz", "a b", "10"]
+STRS = ["abc", "", "ABC", "b", "xabcx", "Zz", "a b", "10", "a  b", "x\ty"]
 INTS = [0, 1, 5, 100, -3, 7, 2, 255]
 FLOATS = [1.5, 0.0, -2.25, 100.0]
 BYTES = ["7879", "", "78"]
@@ -509,6 +509,12 @@ def run_real(case):
         return {"syntax_error": True}
     out = []
     isel, csel = Selector(case["src"]), CompiledSelector(case["src"])
+    # the engines as make_selector() hands them out for the expression TEXT (what readers and rdump are given)
+    from flow.record.selector import make_selector
+    try:
+        misel, mcsel = make_selector(case["src"]), make_selector(case["src"], True)
+    except Exception:          # noqa: BLE001
+        misel = mcsel = None
     for name, fields in case["records"]:
         rec = SA.build_record(name, fields)
         ns = _ref_namespace(rec)
@@ -517,6 +523,8 @@ def run_real(case):
             ns.update({"string": _ft.string, "wstring": _ft.wstring, "varint": _ft.varint})
         out.append({"interpreted": _res(lambda: isel.match(rec)), "compiled": _res(lambda: csel.match(rec)),
                     "reference": _res(lambda: eval(code, ns))})
+        if misel is not None:
+            out[-1]["via_make"] = [_res(lambda: misel.match(rec)), _res(lambda: mcsel.match(rec))]
     return {"per_record": out}
 
 
@@ -533,6 +541,13 @@ def oracle(case, obs):
             continue
         if "error" in ref:
             continue  # some sub-expression is not defined on this record: no expectation
+        for eng, via in (("interpreted", 0), ("compiled", 1)):
+            vm = o.get("via_make")
+            if vm and not (case.get("interp_only") and eng == "compiled"):
+                a_, b_ = o[eng], vm[via]
+                if ("error" in a_) != ("error" in b_) or a_.get("truth") != b_.get("truth"):
+                    return (f"`{case['src']}` on record {i}: the {eng} engine built by make_selector() from the text answers "
+                            f"{b_.get('value', b_.get('error'))}, the same engine built directly answers {a_.get('value', a_.get('error'))}")
         for eng in (("interpreted",) if case.get("interp_only") else ("interpreted", "compiled")):
             e = o[eng]
             if "error" in e and case.get("outlang") and eng == "interpreted":
